@@ -94,6 +94,32 @@ pub fn cells(tier: Tier) -> Vec<CellPlan> {
         };
         v.push(plan(c, 0, 2.0));
     }
+    // The same lagging cell with the server tick crossing the 32-bit wrap point.
+    {
+        let mut cfg = Cfg::default();
+        cfg.events = true;
+        cfg.tick_offset = u32::MAX - 8;
+        let c = EvCell {
+            name: "c04-lag2-wrap".into(),
+            property: "C04",
+            cfg,
+            connect_at_start: vec![0],
+            init: vec![Op::Spawn(0, 1 << TA)],
+            alphabet: vec![
+                EvOp::Nop,
+                EvOp::World(Op::Ins(0, TB)),
+                EvOp::World(Op::Rm(0, TB)),
+                EvOp::EmitS(SK::E1, Mode::Broadcast, None),
+                EvOp::EmitS(SK::EM, Mode::Broadcast, Some(0)),
+            ],
+            rounds: if q { 5 } else { 6 },
+            tick_choice: false,
+            env: EvEnv { hold_updates: 0, hold_events: false, reorder: false, drop_unreliable: false, hold_client_events: false, hold_mutations: false, hold_acks: false, update_latency: 2, update_batch: 0 },
+            oracles: EvOracles { c04: true, c05: true, ..Default::default() },
+            closure_rounds: 6,
+        };
+        v.push(plan(c, 0, 1.0));
+    }
     v
 }
 
